@@ -54,6 +54,81 @@ m("C12-geterrors-unlocked-direrrors", "C12", [(CACHE,
   "\tfor path, errs := range c.errors {\n\t\terrors[path] = errs\n\t}\n\tfor path, err := range c.dirErrors {\n\t\terrors[path] = []error{err}\n\t}\n\n\treturn errors",
   "\tfor path, errs := range c.errors {\n\t\terrors[path] = errs\n\t}\n\tdirErrors := c.dirErrors\n\tc.Unlock()\n\tfor path, err := range dirErrors {\n\t\terrors[path] = []error{err}\n\t}\n\tc.Lock()\n\n\treturn errors")], "dirErrors (mutated in place by the watcher) ranged over outside the lock")
 
+# ---------------------------------------------------------------- C14
+m("C14-revert-D9", "C14", [(EDITS,
+  "\t\tnode := *d\n\t\tdn := DeviceNode{&node}\n",
+  "\t\tnode := d\n\t\tdn := DeviceNode{node}\n")], "revert of fix D9: host info filled into the cached node")
+m("C14-memoize-hostinfo", "C14", [("pkg/cdi/container-edits_unix.go",
+  "\tdeviceType, major, minor, err := deviceInfoFromPath(d.HostPath)\n\tif err != nil {",
+  "\tdeviceType, major, minor, err := cachedDeviceInfo(d.HostPath)\n\tif err != nil {"),
+  ("pkg/cdi/container-edits_unix.go",
+  "// fillMissingInfo fills in missing mandatory attributes from the host device.",
+  "type hostInfo struct {\n\tt string\n\tmaj, min int64\n}\n\nvar hostInfoCache = map[string]hostInfo{}\n\nfunc cachedDeviceInfo(path string) (string, int64, int64, error) {\n\tif hi, ok := hostInfoCache[path]; ok {\n\t\treturn hi.t, hi.maj, hi.min, nil\n\t}\n\tt, maj, min, err := deviceInfoFromPath(path)\n\tif err == nil {\n\t\thostInfoCache[path] = hostInfo{t, maj, min}\n\t}\n\treturn t, maj, min, err\n}\n\n// fillMissingInfo fills in missing mandatory attributes from the host device.")],
+  "host device info remembered in a package-level map")
+m("C14-default-perms-inplace", "C14", [(EDITS,
+  "\t\t\taccess := node.Permissions\n\t\t\tif access == \"\" {\n\t\t\t\taccess = \"rwm\"\n\t\t\t}",
+  "\t\t\tif d.Permissions == \"\" {\n\t\t\t\td.Permissions = \"rwm\"\n\t\t\t}\n\t\t\taccess := d.Permissions")], "default permissions written into the cached node")
+m("C14-sort-env-inplace", "C14", [(EDITS,
+  "\tif len(e.Env) > 0 {\n\t\tspecgen.AddMultipleProcessEnv(e.Env)",
+  "\tif len(e.Env) > 0 {\n\t\tsort.Strings(e.Env)\n\t\tspecgen.AddMultipleProcessEnv(e.Env)")], "cached env list sorted in place")
+m("C14-append-alias-first", "C14", [(EDITS,
+  "\tif e.ContainerEdits == nil {\n\t\te.ContainerEdits = &cdi.ContainerEdits{}\n\t}\n",
+  "\tif e.ContainerEdits == nil {\n\t\te.ContainerEdits = o.ContainerEdits\n\t\treturn e\n\t}\n")], "Append adopts the first (cached) edits object as the accumulator; later Appends write into the cached Spec")
+
+# ---------------------------------------------------------------- C04
+m("C04-return-devices", "C04", [(CACHE,
+  "\t\treturn unresolved, fmt.Errorf(\"unresolvable CDI devices %s\",",
+  "\t\treturn devices, fmt.Errorf(\"unresolvable CDI devices %s\",")], "all requested names returned instead of the misses")
+m("C04-spec-edits-eager", "C04", [(CACHE,
+  "\t\t\tspecs[d.GetSpec()] = struct{}{}\n\t\t\tedits.Append(d.GetSpec().edits())",
+  "\t\t\tspecs[d.GetSpec()] = struct{}{}\n\t\t\tif err := d.GetSpec().ApplyEdits(ociSpec); err != nil {\n\t\t\t\treturn nil, err\n\t\t\t}")], "Spec-level edits applied immediately, before later misses are known")
+m("C04-nilguard-returns-nil", "C04", [(CACHE,
+  "\t\treturn devices, fmt.Errorf(\"can't inject devices, nil OCI Spec\")",
+  "\t\treturn nil, fmt.Errorf(\"can't inject devices, nil OCI Spec\")")], "nil OCI spec: requested names not returned")
+m("C04-decide-all-unresolved", "C04", [(CACHE,
+  "\tif unresolved != nil {\n\t\treturn unresolved, fmt.Errorf(",
+  "\tif len(unresolved) == len(devices) && unresolved != nil {\n\t\treturn unresolved, fmt.Errorf(")], "only fails when every device is unresolvable: partial injection otherwise")
+m("C04-dedupe-misses", "C04", [(CACHE,
+  "\t\t\tunresolved = append(unresolved, device)\n\t\t\tcontinue",
+  "\t\t\tif len(unresolved) == 0 || unresolved[len(unresolved)-1] != device {\n\t\t\t\tunresolved = append(unresolved, device)\n\t\t\t}\n\t\t\tcontinue")], "a repeated unresolvable name is reported once only, and if only repeats are missing nothing is reported")
+m("C04-skip-first", "C04", [(CACHE,
+  "\tfor _, device := range devices {\n\t\td := c.devices[device]",
+  "\tfor i := len(devices) - 1; i >= 0; i-- {\n\t\tdevice := devices[i]\n\t\td := c.devices[device]")], "request walked backwards: misses (and edits) in reverse order")
+b("benign-C04-len-test", ["C04", "C02", "C14"], [(CACHE,
+  "\tif unresolved != nil {\n\t\treturn unresolved, fmt.Errorf(",
+  "\tif len(unresolved) > 0 {\n\t\treturn unresolved, fmt.Errorf(")], "len(unresolved) > 0 is equivalent to unresolved != nil for a list built by append")
+b("benign-C04-guard-after-lock", ["C04", "C12"], [(CACHE,
+  "\tif ociSpec == nil {\n\t\treturn devices, fmt.Errorf(\"can't inject devices, nil OCI Spec\")\n\t}\n\n\tc.Lock()\n\tdefer c.Unlock()\n\n\t_, _ = c.refreshIfRequired(false) // we record but ignore errors\n\n\tedits := &ContainerEdits{}",
+  "\tc.Lock()\n\tdefer c.Unlock()\n\n\tif ociSpec == nil {\n\t\treturn devices, fmt.Errorf(\"can't inject devices, nil OCI Spec\")\n\t}\n\n\t_, _ = c.refreshIfRequired(false) // we record but ignore errors\n\n\tedits := &ContainerEdits{}")], "nil guard moved below the lock: same results")
+b("benign-C04-commaok-lookup", ["C04", "C02", "C14", "C12"], [(CACHE,
+  "\t\td := c.devices[device]\n\t\tif d == nil {",
+  "\t\td, found := c.devices[device]\n\t\tif !found {")], "comma-ok form of the same lookup")
+
+# ---------------------------------------------------------------- C02
+m("C02-set-in-loop", "C02", [(CACHE,
+  "\tspecs := map[*Spec]struct{}{}\n\n\tfor _, device := range devices {\n",
+  "\tfor _, device := range devices {\n\t\tspecs := map[*Spec]struct{}{}\n")], "the once-per-Spec set is recreated in every iteration")
+m("C02-rdt-unconditional", "C02", [(EDITS,
+  "\tif o.IntelRdt != nil {\n\t\te.IntelRdt = o.IntelRdt\n\t}\n",
+  "\te.IntelRdt = o.IntelRdt\n")], "a later edit without RDT clears the RDT setting of an earlier one")
+m("C02-device-edits-from-spec", "C02", [("pkg/cdi/device.go",
+  "\treturn &ContainerEdits{&d.ContainerEdits}",
+  "\treturn &ContainerEdits{&d.spec.ContainerEdits}")], "Device.edits() hands out the Spec-level edits")
+m("C02-break-after-first", "C02", [(CACHE,
+  "\t\tedits.Append(d.edits())\n\t}\n",
+  "\t\tedits.Append(d.edits())\n\t\tif len(edits.DeviceNodes) > 16 {\n\t\t\tbreak\n\t\t}\n\t}\n")], "the request loop stops early once many device nodes were collected")
+m("C02-env-self-append", "C02", [(EDITS,
+  "\te.Env = append(e.Env, o.Env...)",
+  "\te.Env = append(o.Env, e.Env...)")], "env of later edits placed before earlier ones (also writes into the cached slice)")
+b("benign-C02-key-by-path", ["C02", "C04", "C14"], [(CACHE,
+  "\tspecs := map[*Spec]struct{}{}\n",
+  "\tspecs := map[string]struct{}{}\n"), (CACHE,
+  "\t\tif _, ok := specs[d.GetSpec()]; !ok {\n\t\t\tspecs[d.GetSpec()] = struct{}{}",
+  "\t\tif _, ok := specs[d.GetSpec().GetPath()]; !ok {\n\t\t\tspecs[d.GetSpec().GetPath()] = struct{}{}")], "set keyed by the Spec's file path instead of its pointer: same partition")
+b("benign-C02-local-spec-var", ["C02", "C04", "C14"], [(CACHE,
+  "\t\tif _, ok := specs[d.GetSpec()]; !ok {\n\t\t\tspecs[d.GetSpec()] = struct{}{}\n\t\t\tedits.Append(d.GetSpec().edits())\n\t\t}",
+  "\t\tspec := d.GetSpec()\n\t\tif _, seen := specs[spec]; !seen {\n\t\t\tspecs[spec] = struct{}{}\n\t\t\tedits.Append(spec.edits())\n\t\t}")], "Spec held in a local variable")
+
 
 def emit():
     os.makedirs(os.path.join(VERIF, "mutants"), exist_ok=True)
